@@ -49,6 +49,8 @@ MIN_HITS = {
                         'per-position-metrics': 1500, 'fully-masked-sequences': 300}),
 }
 MIN_HITS['quick']['mon:empty'] = 40
+MIN_HITS['quick'].update({'mon:rawmerge': 500, 'batches-as:iterator': 100, 'batches-as:generator': 100})
+MIN_HITS['thorough'].update({'mon:rawmerge': 8000, 'batches-as:iterator': 1500, 'batches-as:generator': 1500})
 MIN_HITS['quick']['mon:allpad'] = 40
 MIN_HITS['quick']['mon:debug-global'] = 40
 MIN_HITS['quick']['mon:debug-perclient'] = 40
@@ -408,12 +410,22 @@ def _run_case(ctx, fedjax, jax, jnp, cd, world, rng, debug_case):
     ctx.count('all-padding-batches', info['all_padding'])
   params = {'scale': jnp.float32(gscale)}
 
+  def as_iterable(b):
+    """Batches reach the evaluators as a list, a one-shot iterator or a generator (all are 'iterables of batches')."""
+    k = int(rng.randint(3))
+    ctx.count('batches-as:' + ['list', 'iterator', 'generator'][k])
+    if k == 0:
+      return list(b)
+    if k == 1:
+      return iter(list(b))
+    return (x for x in list(b))
+
   for kind, b, layout, info in batchings:
     wit = dict(wit0, batching=kind, layout=layout)
     empty_kind = None
     if n == 0:
       empty_kind = 'allpad' if b else 'empty'
-    r = ctx.call('evaluate_model', fedjax.evaluate_model, world.model, params, b, witness=wit)
+    r = ctx.call('evaluate_model', fedjax.evaluate_model, world.model, params, as_iterable(b), witness=wit)
     if r.ok:
       judge(ctx, 'evalmodel', kind, world, r.value, ref_res, n, wit, empty_kind)
 
@@ -421,7 +433,7 @@ def _run_case(ctx, fedjax, jax, jnp, cd, world, rng, debug_case):
   cids = [f'client-{i}'.encode() for i in range(len(batchings))]
   wit = dict(wit0, batching='3 clients = 3 batchings', layout=[l for _, _, l, _ in batchings])
   r = ctx.call('ModelEvaluator.evaluate_global_params',
-               lambda: list(world.ev_jit.evaluate_global_params(params, [(c, b) for c, (_, b, _, _) in zip(cids, batchings)])),
+               lambda: list(world.ev_jit.evaluate_global_params(params, [(c, as_iterable(b)) for c, (_, b, _, _) in zip(cids, batchings)])),
                witness=wit)
   if r.ok:
     out = r.value
@@ -431,7 +443,7 @@ def _run_case(ctx, fedjax, jax, jnp, cd, world, rng, debug_case):
   cscales = [float(scales[rng.randint(3)]) for _ in batchings]
   wit = dict(wit, client_scales=cscales)
   r = ctx.call('ModelEvaluator.evaluate_per_client_params', lambda: list(world.ev_jit.evaluate_per_client_params(
-      [(c, b, {'scale': jnp.float32(s)}) for c, (_, b, _, _), s in zip(cids, batchings, cscales)])), witness=wit)
+      [(c, as_iterable(b), {'scale': jnp.float32(s)}) for c, (_, b, _, _), s in zip(cids, batchings, cscales)])), witness=wit)
   if r.ok:
     for (c, res), (kind, b, _, _), s in zip(r.value, batchings, cscales):
       judge(ctx, 'evaluator-perclient', kind, world, res, oracle(s)[1], n, wit)
@@ -489,6 +501,29 @@ def _run_case(ctx, fedjax, jax, jnp, cd, world, rng, debug_case):
       ok = not np.any(np.isnan(res)) and fits(rr.shape, res.shape) and close(res, np.broadcast_to(rr, res.shape), len(rows))
       ctx.check(ok, f'evalbatch/{kind}-' + ('nan' if np.any(np.isnan(res)) else 'result-differs'),
                 f'{name}: evaluate_batch(...).result() differs', None if ok else dict(wit, got=res, one_by_one=rr))
+
+  # ---- raw single-example statistics merged DIRECTLY with each other (tree-shaped reduction, no zero() seed)
+  if n >= 3:
+    tri = [int(t) for t in rng.choice(n, size=3, replace=False)]
+    raw = [world.single(*world.ex_pred(Y, P, Dm, i, gscale)) for i in tri]
+    seeded = world.fold(Y, P, Dm, tri, gscale)
+    with jax.disable_jit():
+      for name in list(world.metrics):
+        s0, s1, s2 = (r_[name] for r_ in raw)
+        wit = dict(wit0, metric=name, metric_args=world.args[name], examples=tri)
+        r = ctx.call('Stat.merge[raw]', lambda: (s0.merge(s1).merge(s2), s0.merge(s1.merge(s2)), s2.merge(s0).merge(s1)), witness=wit)
+        if r.ok:
+          want = np.asarray(seeded[name].result()).astype(np.float64)
+          for tag, st_ in zip(('(a.b).c', 'a.(b.c)', '(c.a).b'), r.value):
+            got = np.asarray(st_.result()).astype(np.float64)
+            try:
+              shp = np.broadcast_shapes(got.shape, want.shape)
+              ok = close(np.broadcast_to(got, shp), np.broadcast_to(want, shp), 3)
+            except ValueError:
+              ok = False
+            ctx.check(ok, 'rawmerge/raw-example-stats-merge-differs-from-zero-seeded-fold',
+                      f'{name}: {tag} over raw evaluate_example statistics differs from zero().merge(a).merge(b).merge(c)',
+                      dict(wit, grouping=tag, got=got, expected=want))
 
   # ---- monoid laws on statistics of disjoint subsets (eager merges: the MeanStat.new contract observes them)
   part = rng.randint(0, 4, size=n)
